@@ -14,6 +14,7 @@ type Universe struct {
 	Docs  map[string]string
 	Insts []string
 	Kind  string
+	Meta  map[string]int // generator coordinates (anchor kinds etc.), for selecting sub-families
 }
 
 // DocsKey renders the loader documents deterministically.
@@ -225,7 +226,8 @@ func DynTwoScope(yield func(u *Universe)) {
 					}
 				}
 				root := `{"$id":"http://h/root.json",` + c.tmpl + `,"$defs":{` + defs + `}}`
-				u := &Universe{Root: root, Base: "http://h/root.json", Docs: docs, Kind: "two-scope " + c.name}
+				u := &Universe{Root: root, Base: "http://h/root.json", Docs: docs, Kind: "two-scope " + c.name,
+					Meta: map[string]int{"ka": ka, "kb": kb, "kf": kf, "kr": kr, "offchain": pl / 2, "placement": placement}}
 				switch c.name {
 				case "prefixItems", "contains-items":
 					for _, x := range vals {
